@@ -30,3 +30,23 @@ Proof. exact eval_slice_total. Qed.
 (* non-vacuity: the F1 witness is in the domain and evaluates to true *)
 Theorem C06_nonvacuous : wf c_f1 /\ eval_slice (toks c_f1) = Ok true.
 Proof. exact (conj f1_wf f1_value). Qed.
+
+(* ---- index-faithful model (CondIx.v): the whole argument slice, start_block / index (usize), the
+   i32 counter, the recursive call on `&arguments[start_block..index]`, explicit Panic for an
+   out-of-range slice, an out-of-bounds index and (overflow-checked profile) i32 overflow.
+   The further theorems about it (termination, overflow-checked profile, exactness of the bound,
+   eval_condition's dispatch, transfer of C06_eval) are in props/C06ix.v. ------------------------------ *)
+Require Import DS.CondIx DS.CondIxProof.
+
+(* default release profile (wrapping i32 arithmetic; what `cargo install` builds):
+   EVERY token list, of any length, gets a verdict or an error — never a panic *)
+Theorem C06_ix_total : forall ts, eval_slice_ix ts <> IPanic.
+Proof. exact eval_slice_ix_total. Qed.
+
+(* the index model equals the suffix model on every token list shorter than 2^31 (the range in which
+   the i32 counter cannot overflow), so C06_eval / C06_total transfer to it.
+   Full statement `forall ts, eval_slice_ix ts = inj (eval_slice ts)`: FALSE of the faithful model,
+   see C06ix.C06_ix_bounds_exact — the length bound is exactly the i32 range of `counter`. *)
+Theorem C06_ix_refines : forall ts, (Z.of_nat (length ts) < 2147483648)%Z ->
+  eval_slice_ix ts = inj (eval_slice ts).
+Proof. exact eval_slice_ix_refines. Qed.
